@@ -12,6 +12,7 @@ package simrt
 
 import (
 	"bytes"
+	"strings"
 	"fmt"
 	"reflect"
 	"runtime"
@@ -45,7 +46,7 @@ type Task struct {
 // Sched is the scheduler of one simulated run.
 type Sched struct {
 	mu      sync.Mutex // real mutex: protects the scheduler's own tables
-	tasks   map[int64]*Task
+	tasks   []*Task // (no Go map here: the runtime's map functions report to the race detector whoever calls them)
 	parked  []*Op
 	notify  chan struct{}
 	dead    bool
@@ -56,7 +57,7 @@ type Sched struct {
 	Steps   int
 	Hash    uint64
 	root    *Task
-	nobj    map[string]int
+	nobj    [8]int
 	// Stats
 	Released map[string]int
 	// Panics of task goroutines (a crash of the system under test, or of the harness)
@@ -71,6 +72,7 @@ var Active *Sched
 // SelectOrder, when non-nil, chooses the polling start of a rewritten select with n live cases.
 var SelectOrder func(n int) int
 
+//go:norace
 func goid() int64 {
 	var buf [64]byte
 	n := runtime.Stack(buf[:], false)
@@ -82,23 +84,63 @@ func goid() int64 {
 }
 
 // NewSched creates a scheduler; the calling goroutine becomes the root task.
+//go:norace
 func NewSched(choose func(n int, label string) int) *Sched {
-	s := &Sched{tasks: map[int64]*Task{}, notify: make(chan struct{}, 1), Choose: choose, nobj: map[string]int{}, Released: map[string]int{}}
+	s := &Sched{notify: make(chan struct{}, 1), Choose: choose, Released: map[string]int{}}
 	s.root = &Task{Name: "root", gid: goid()}
-	s.tasks[s.root.gid] = s.root
+	s.tasks = append(s.tasks, s.root)
 	return s
 }
 
 // ObjName hands out deterministic object names ("mutex#3").
+//go:norace
 func (s *Sched) ObjName(kind string) string {
+	raceDisable()
+	defer raceEnable()
 	s.mu.Lock()
 	defer s.mu.Unlock()
-	s.nobj[kind]++
-	return kind + "#" + strconv.Itoa(s.nobj[kind])
+	i := 0
+	switch kind {
+	case "mutex":
+		i = 1
+	case "rwmutex":
+		i = 2
+	case "cond":
+		i = 3
+	}
+	s.nobj[i]++
+	return kind + "#" + strconv.Itoa(s.nobj[i])
 }
 
-func (s *Sched) logf(format string, a ...any) {
-	line := fmt.Sprintf(format, a...)
+//go:norace
+func (s *Sched) findTask(id int64) *Task {
+	for _, t := range s.tasks {
+		if t.gid == id {
+			return t
+		}
+	}
+	return nil
+}
+
+//go:norace
+func (s *Sched) dropTask(id int64) {
+	for i, t := range s.tasks {
+		if t.gid == id {
+			// element moves by hand: the runtime's slicecopy reports to the race detector
+			for k := i; k+1 < len(s.tasks); k++ {
+				s.tasks[k] = s.tasks[k+1]
+			}
+			s.tasks = s.tasks[:len(s.tasks)-1]
+			return
+		}
+	}
+}
+
+//go:norace
+func (s *Sched) logf(parts ...string) {
+	// no fmt here: fmt recycles buffers through a sync.Pool, whose hand-over the race detector cannot
+	// see inside the scheduler's RaceDisable windows
+	line := strings.Join(parts, "")
 	// FNV-1a over the event log
 	h := s.Hash
 	if h == 0 {
@@ -110,38 +152,58 @@ func (s *Sched) logf(format string, a ...any) {
 	}
 	s.Hash = h
 	if s.Verbose {
-		s.Log = append(s.Log, fmt.Sprintf("[%v] %s", time.Since(epoch).Round(time.Microsecond), line))
+		s.Log = append(s.Log, "["+time.Since(epoch).Round(time.Microsecond).String()+"] "+line)
 	}
 }
 
 var epoch time.Time
 
 // Event lets harness code add a line to the event log (from the running task).
+//go:norace
 func (s *Sched) Event(format string, a ...any) {
+	line := fmt.Sprintf(format, a...) // formatted by the calling task, outside any RaceDisable window
+	raceDisable()
+	defer raceEnable()
 	s.mu.Lock()
 	defer s.mu.Unlock()
-	s.logf(format, a...)
+	s.logf(line)
 }
 
 // Current returns the task of the calling goroutine (nil if unknown).
+//go:norace
 func (s *Sched) Current() *Task {
+	raceDisable()
+	defer raceEnable()
 	id := goid()
 	s.mu.Lock()
 	defer s.mu.Unlock()
-	return s.tasks[id]
+	return s.findTask(id)
 }
 
 type dieSentinel struct{}
 
+func panicString(r any) string {
+	switch x := r.(type) {
+	case string:
+		return x
+	case error:
+		return x.Error()
+	}
+	return fmt.Sprint(r)
+}
+
 // Park blocks the calling goroutine until the scheduler releases op.
+//go:norace
 func (s *Sched) Park(op *Op) {
+	raceDisable() // the scheduler's own hand-offs must not create happens-before edges between tasks
+	defer raceEnable()
 	id := goid()
 	s.mu.Lock()
-	t := s.tasks[id]
+	t := s.findTask(id)
 	if t == nil {
 		// a goroutine the scheduler has never seen (started natively): adopt it
 		t = &Task{Name: "adopted" + strconv.Itoa(len(s.tasks)), gid: id}
-		s.tasks[id] = t
+		s.tasks = append(s.tasks, t)
 	}
 	if s.dead {
 		s.mu.Unlock()
@@ -164,13 +226,15 @@ func (s *Sched) Park(op *Op) {
 }
 
 // Yield is an explicit scheduling point.
+//go:norace
 func Yield(label string) {
 	if s := Active; s != nil {
-		s.Park(&Op{Kind: "yield", Obj: label, Enabled: func() bool { return true }})
+		s.Park(&Op{Kind: "yield", Obj: label, Enabled: alwaysEnabled})
 	}
 }
 
 // Go starts f as a task of the active simulation (native goroutine otherwise).
+//go:norace
 func Go(f func()) {
 	s := Active
 	if s == nil {
@@ -181,6 +245,7 @@ func Go(f func()) {
 }
 
 // GoNamed starts a task with an explicit name suffix.
+//go:norace
 func (s *Sched) GoNamed(name string, daemon bool, f func()) {
 	parent := s.Current()
 	if parent == nil {
@@ -194,34 +259,56 @@ func (s *Sched) GoNamed(name string, daemon bool, f func()) {
 	}
 	s.mu.Unlock()
 	t := &Task{Name: n, Daemon: daemon}
-	go func() {
-		t.gid = goid()
+	go s.taskMain(t, f)
+}
+
+//go:norace
+func (s *Sched) taskMain(t *Task, f func()) {
+	t.gid = goid()
+	raceDisable()
+	s.mu.Lock()
+	s.tasks = append(s.tasks, t)
+	s.mu.Unlock()
+	raceEnable()
+	defer s.taskExit(t)
+	defer s.taskRecover(t)
+	s.Park(&Op{Kind: "start", Obj: t.Name, Enabled: alwaysEnabled})
+	f()
+}
+
+//go:norace
+func alwaysEnabled() bool { return true }
+
+//go:norace
+func (s *Sched) taskExit(t *Task) {
+	raceDisable()
+	s.mu.Lock()
+	s.dropTask(t.gid)
+	s.mu.Unlock()
+	raceEnable()
+}
+
+//go:norace
+func (s *Sched) taskRecover(t *Task) {
+	if r := recover(); r != nil {
+		buf := make([]byte, 8192)
+		buf = buf[:runtime.Stack(buf, false)]
+		msg := "task " + t.Name + " panicked: " + panicString(r) + "\n" + string(buf)
+		raceDisable()
 		s.mu.Lock()
-		s.tasks[t.gid] = t
+		s.Panics = append(s.Panics, msg)
 		s.mu.Unlock()
-		defer func() {
-			s.mu.Lock()
-			delete(s.tasks, t.gid)
-			s.mu.Unlock()
-		}()
-		defer func() {
-			if r := recover(); r != nil {
-				buf := make([]byte, 8192)
-				buf = buf[:runtime.Stack(buf, false)]
-				s.mu.Lock()
-				s.Panics = append(s.Panics, fmt.Sprintf("task %s panicked: %v\n%s", n, r, buf))
-				s.mu.Unlock()
-			}
-		}()
-		s.Park(&Op{Kind: "start", Obj: n, Enabled: func() bool { return true }})
-		f()
-	}()
+		raceEnable()
+	}
 }
 
 // Run drives the simulation until done() is true while everything is quiescent, or maxSteps
 // scheduling decisions, or until the fake clock reaches limit.  It returns "" or a reason
 // ("deadlock: ...", "step budget", "time limit").
+//go:norace
 func (s *Sched) Run(done func() bool, maxSteps int, limit time.Duration) string {
+	raceDisable()
+	defer raceEnable()
 	for {
 		synctest.Wait()
 		if len(s.Panics) > 0 {
@@ -247,12 +334,7 @@ func (s *Sched) Run(done func() bool, maxSteps int, limit time.Duration) string 
 				nextDeadline = op.Deadline
 			}
 		}
-		sort.Slice(enabled, func(i, j int) bool {
-			if enabled[i].task.Name != enabled[j].task.Name {
-				return enabled[i].task.Name < enabled[j].task.Name
-			}
-			return enabled[i].seq < enabled[j].seq
-		})
+		sort.Sort(opsByName(enabled))
 		nparked := len(s.parked)
 		s.mu.Unlock()
 		stall := false
@@ -268,13 +350,16 @@ func (s *Sched) Run(done func() bool, maxSteps int, limit time.Duration) string 
 			s.mu.Lock()
 			for j, p := range s.parked {
 				if p == op {
-					s.parked = append(s.parked[:j], s.parked[j+1:]...)
+					for k := j; k+1 < len(s.parked); k++ {
+						s.parked[k] = s.parked[k+1]
+					}
+					s.parked = s.parked[:len(s.parked)-1]
 					break
 				}
 			}
 			s.Steps++
 			s.Released[op.Kind]++
-			s.logf("%s: %s %s", op.task.Name, op.Kind, op.Obj)
+			s.logf(op.task.Name, ": ", op.Kind, " ", op.Obj)
 			s.mu.Unlock()
 			if op.OnRelease != nil {
 				op.OnRelease()
@@ -312,25 +397,43 @@ func (s *Sched) Run(done func() bool, maxSteps int, limit time.Duration) string 
 		}
 		if el := time.Since(before); el > 0 {
 			s.mu.Lock()
-			s.logf("clock +%v", el)
+			s.logf("clock +", el.String())
 			s.mu.Unlock()
 		}
 	}
 }
 
+type opsByName []*Op
+
+//go:norace
+func (o opsByName) Len() int { return len(o) }
+
+//go:norace
+func (o opsByName) Swap(i, j int) { o[i], o[j] = o[j], o[i] }
+
+//go:norace
+func (o opsByName) Less(i, j int) bool {
+	if o[i].task.Name != o[j].task.Name {
+		return o[i].task.Name < o[j].task.Name
+	}
+	return o[i].seq < o[j].seq
+}
+
+//go:norace
 func (s *Sched) describeParked() string {
 	s.mu.Lock()
 	defer s.mu.Unlock()
 	var out []string
 	for _, op := range s.parked {
-		out = append(out, fmt.Sprintf("%s waits for %s %s", op.task.Name, op.Kind, op.Obj))
+		out = append(out, op.task.Name+" waits for "+op.Kind+" "+op.Obj)
 	}
 	sort.Strings(out)
-	return fmt.Sprint(out)
+	return "[" + strings.Join(out, "; ") + "]"
 }
 
 // Kill ends the run: every parked goroutine (and every goroutine that reaches a park point
 // later) exits.
+//go:norace
 func (s *Sched) Kill() {
 	s.mu.Lock()
 	s.dead = true
@@ -343,6 +446,7 @@ func (s *Sched) Kill() {
 }
 
 // Dead reports whether the run has been ended.
+//go:norace
 func (s *Sched) Dead() bool {
 	s.mu.Lock()
 	defer s.mu.Unlock()
@@ -350,9 +454,11 @@ func (s *Sched) Dead() bool {
 }
 
 // SetEpoch records the fake time origin of the run (call inside the bubble).
+//go:norace
 func SetEpoch() { epoch = time.Now() }
 
 // Now returns the simulated time since the start of the run.
+//go:norace
 func Now() time.Duration { return time.Since(epoch) }
 
 // ---- rewritten select statements ----
@@ -415,9 +521,10 @@ func Select(cases []SelCase, hasDefault bool) (int, any, bool) {
 	return chosen, val(recv), ok
 }
 
+//go:norace
 func resume(what string) {
 	if s := Active; s != nil {
-		s.Park(&Op{Kind: "resume", Obj: what, Enabled: func() bool { return true }})
+		s.Park(&Op{Kind: "resume", Obj: what, Enabled: alwaysEnabled})
 	}
 }
 
